@@ -101,6 +101,7 @@ func remote(p *core.Program) *remoteModel {
 
 func c13r1(c *core.Ctx) {
 	p := c.P
+	stdlibPanicsGuarded(c)
 	m := remote(p)
 	c.Count("entry_points", len(m.entries))
 	c.Count("functions_reachable", len(m.reach))
@@ -794,5 +795,27 @@ func closeRemovesOwnSession(c *core.Ctx) {
 	}
 	if n == 0 {
 		c.Undecided("close-removes-own-session", f.Pos(), "Close does not remove the session (C10-R5)")
+	}
+}
+
+// stdlibPanicsGuarded: the two standard-library calls on the request paths that panic on a malformed argument are reached only
+// with arguments of the right size (the rest of the rule treats callees outside the module as total): ed25519.Verify panics on a
+// public key that is not 32 bytes — the key is the peer's (pair-setup M5) or a stored controller's (pair-verify M3) — and
+// ed25519.Sign on a private key that is not 64 bytes. Shared with C04-R3.
+func stdlibPanicsGuarded(c *core.Ctx) {
+	for _, spec := range []struct {
+		fn, callee string
+		size       int64
+	}{{"ValidateED25519Signature", "crypto/ed25519.Verify", 32}, {"ED25519Signature", "crypto/ed25519.Sign", 64}} {
+		f := c.P.Func("crypto", spec.fn)
+		if f == nil {
+			c.Undecided("panic-guard:"+spec.fn, token.NoPos, "not found")
+			continue
+		}
+		for _, call := range core.FindCalls(f, func(i ssa.Instruction) bool { g := core.Callee(i); return g != nil && core.QualName(g) == spec.callee }) {
+			c.Check(core.Dominated(call, lenEqualsFact(f.Params[0], spec.size)), "panic-guard:"+spec.callee+"@"+fname(f), posOf(call),
+				fmt.Sprintf("reached only with a key of %d bytes", spec.size),
+				fmt.Sprintf("%s is reached with a key whose length is not known to be %d: it panics on any other size, and the key is supplied by the peer (a truncated public-key item in pair-setup M5, or a stored controller key of the wrong size in pair-verify M3) — the handler panics instead of answering", spec.callee, spec.size))
+		}
 	}
 }
